@@ -699,7 +699,7 @@ def justified_panic_site(ctx, b, bb, kind, detail, roles):
     if b.name == "main":
         if kind == "unwrap" and "log::SetLoggerError" in detail:
             return "the logger is initialised exactly once, at start-up"
-        if kind == "unwrap" and "Option::<&str>::unwrap" in detail and any(a[0] == "static" and a[1].endswith("PROJECT_DIR") for x in args for a in b.prov.operand_atoms(x)) | any(c.endswith("ArgMatches::value_of") for c in atom_callres(at0)):
+        if kind == "unwrap" and "Option::<&str>::unwrap" in detail and any(a[0] in ("static", "constdef") and a[1].endswith("PROJECT_DIR") for x in args for a in b.prov.operand_atoms(x)) | any(c.endswith("ArgMatches::value_of") for c in atom_callres(at0)):
             return "clap default value for --project"
         if kind == "unwrap" and re.search(r"Result::<std::vec::Vec<[\w:]*TargetId>, anyhow::Error>::unwrap", detail):
             return "clap restricts the requested names to the offered (valid) names"
